@@ -6,7 +6,7 @@ from mkprops import write
 IMP = """From Coq Require Import List Arith Bool NArith.
 From FFSM2 Require Import Model.TaskList Model.BitArray Model.BitStream Model.Plan Model.Ancestors Model.Machine
   Proofs.BitArrayProofs Proofs.TaskListProofs Proofs.TaskListRun Proofs.PlanProofs Proofs.MachineFrame Proofs.MachinePlan Proofs.MachineLife Proofs.GuardProofs Proofs.CycleProofs Proofs.PlanStep
-  Proofs.SerialProofs Proofs.LogProofs Proofs.MachineTop Model.Multi Generated.InitFacts Proofs.ConstructProofs Proofs.LifeMonitor Proofs.ActivationRounds Proofs.IndexSafety Proofs.FeatureProofs Model.Script Proofs.Contract Proofs.Histories Proofs.StatusBits Proofs.Worlds Model.Cxx Generated.LeafCode Proofs.LeafTactics Proofs.LeafConsts.
+  Proofs.SerialProofs Proofs.LogProofs Proofs.MachineTop Model.Multi Generated.InitFacts Proofs.ConstructProofs Proofs.LifeMonitor Proofs.ActivationRounds Proofs.IndexSafety Proofs.FeatureProofs Model.Script Proofs.Contract Proofs.Histories Proofs.StatusBits Proofs.Worlds Model.Cxx Generated.LeafCode Proofs.LeafTactics Proofs.LeafConsts Proofs.LeafCodeTaskList.
 Import ListNotations."""
 
 VOC = ("Vocabulary: Ready cfg s a = the machine is at a point where requests are processed (or between API calls) with state a < n active, "
@@ -272,6 +272,15 @@ _TIE = ("the tie to the source, by proof: the static constants of BitArrayT<N> a
 for _pid in ("C08", "C09", "C12"):
     SPECS[_pid][1].append(("%s_source_constants_are_the_model" % _pid, "src_BitArray_consts", _TIE))
     SPECS[_pid][1].append(("%s_source_contain_is_the_model" % _pid, "src_contain_u8", "contain(x, to) of utility.hpp, as translated from the current source, is ceil(x / to) for all one-byte operands (no wrap-around in the intermediate sum)"))
+
+_TLT = ("the tie to the source, by proof (DESIGN.md 4.7): the body of TaskListT<void, N>::%s as tools/leafcode.py translates it from clang's typed AST of /repo's current task_list.inl on every run "
+        "(the array of items as one array per field, prev/next sharing storage with origin/destination as the union in TaskBase says), run in the interpreter of Model/Cxx.v on any list satisfying the invariant FL - "
+        "hence on every list any operation sequence reaches - stays inside the array and computes exactly the model's %s, for every capacity up to 255")
+SPECS["C10"][1].extend([
+   ("C10_source_emplace_is_the_model", "src_TaskList_emplace_FL", _TLT % ("emplace(origin, destination)", "emplace")),
+   ("C10_source_remove_is_the_model", "src_TaskList_remove_FL", _TLT % ("remove(i)", "remove")),
+   ("C10_source_clear_is_the_model", "src_TaskList_clear", "... and clear() resets exactly the four indices"),
+])
 
 _EPS = "over whole histories: every update(), react(), immediateChangeTo() and immediateChangeWith() of every in-contract history processes requests exactly once, from a Ready state reached by callbacks that applied no transition - so every statement of this file made for process_request on a Ready state holds for every processing step of every history"
 for _pid in ("C02", "C03", "C04", "C11"):
